@@ -1,4 +1,5 @@
 import GnarkVerif.Model.Util
+import GnarkVerif.Gen.Fields
 /-
 C10 — executable model of the generated FFT packages
   /repo/ecc/<curve>/fr/fft/{fft.go,domain.go,bitreverse.go,options.go,kernel_purego.go}
@@ -308,6 +309,55 @@ def decodeDomain (nb q : Nat) (bs : List UInt8) : Except RdErr (DomainRec × Lis
 def readFrom (nb q : Nat) (chunks : List (List UInt8)) : Except RdErr (DomainRec × List UInt8) :=
   decodeDomain nb q chunks.flatten
 
+/-- successive `ReadFrom` calls on ONE stream: call `i` decodes one domain from where call `i-1` stopped; answer: every decoded domain
+    with the number of bytes that call consumed, and what is left of the stream after the last call -/
+def decodeStream (nb q : Nat) : Nat → List UInt8 → Except RdErr (List (DomainRec × Nat) × List UInt8)
+  | 0, bs => .ok ([], bs)
+  | n+1, bs =>
+    match decodeDomain nb q bs with
+    | .error e => .error e
+    | .ok (d, r) =>
+      match decodeStream nb q n r with
+      | .error e => .error e
+      | .ok (ds, r') => .ok ((d, bs.length - r.length) :: ds, r')
+
+/-- `WriteTo` of every domain in turn on one writer -/
+def encodeStream (nb : Nat) (ds : List DomainRec) : List UInt8 := (ds.map (encodeDomain nb)).flatten
+
+/-! ### two-adicity and `Generator(m)` -/
+
+def nextPow2 (m : Nat) : Nat := if m ≤ 1 then 1 else 2 ^ ((m-1).log2 + 1)
+
+def val2Aux : Nat → Nat → Nat
+  | 0, _ => 0
+  | f+1, n => if n != 0 && n % 2 == 0 then val2Aux f (n / 2) + 1 else 0
+
+/-- largest `s` with `2^s ∣ n` (`n ≠ 0`) -/
+def val2 (n : Nat) : Nat := val2Aux (n.log2 + 1) n
+
+/-- constants of the scalar field of an fft package, as extracted from /repo on this run (Gen/Fields.lean) -/
+def constsOf (field : String) : Option GV.Gen.FieldConsts :=
+  let nm := if field ∈ ["koalabear", "babybear", "goldilocks"] then field else field.replace "-" "_" ++ "_fr"
+  GV.Gen.allFields.find? (fun c => c.name == nm)
+
+/-- the two-adicity of the field: `v2(q-1)`, which must also be the extracted `maxOrderRoot` of the package whose modulus is `q` -/
+def adicityOf (field : String) (q : Nat) : Option Nat :=
+  match constsOf field with
+  | some c =>
+    match c.consts.lookup "maxOrderRoot" with
+    | some s => if c.q == q && q ≥ 3 && s == val2 (q - 1) then some s else none
+    | none => none
+  | none => none
+
+/-- `ρ^(2^(s-1)) = -1`: `ρ` has exact order `2^s` -/
+def exactOrder (q rho s : Nat) : Bool :=
+  powMod rho (2^s) q == 1 % q && (s == 0 || powMod rho (2^(s-1)) q == q - 1)
+
+/-- `Generator(m)` for a field of two-adicity `s` with 2-adic root `ρ`: refused above `2^s`, else `ρ^(2^(s-⌈log2 m⌉))` -/
+def generatorOf (q rho s m : Nat) : Option Nat :=
+  let k := (nextPow2 m).log2
+  if k > s then none else some (powMod rho (2^(s - k)) q)
+
 /-! ### line protocol -/
 
 def parseVec (q : Nat) (s : String) : List (ZM q) :=
@@ -327,7 +377,6 @@ def mkDomain (q m omega g : Nat) (precomp : Bool) : Domain (ZM q) :=
   { m := m, cardInv := zm q (invMod (2^m % q) q), gen := zm q omega, genInv := zm q (invMod omega q),
     g := zm q g, gInv := zm q (invMod g q), precomp := precomp }
 
-def nextPow2 (m : Nat) : Nat := if m ≤ 1 then 1 else 2 ^ ((m-1).log2 + 1)
 
 /-- common argument block: `<field> <q> <omega> <logn> <dif|dit> <coset> <precomp> <nbTasks> <g> <custom> <vec>` -/
 def withArgs (args : List String)
@@ -482,18 +531,72 @@ def handle (args : List String) : String :=
       if m > 28 || mult == 0 || mult ≥ 2^16 || mult * 2^(2*m) ≥ 2^62 then "bad-op"   -- range in which the Go digest cannot overflow
       else toHex (bitrevDigest q m mult) ++ " 1"
     | _, _, _ => "bad-op"
-  | ["domain", _field, qs, roots, ss, mgs, custom, ms] =>
-    match parseHex qs, parseHex roots, parseHex ss, parseHex mgs, parseHex ms with
-    | some q, some root, some s, some mg, some mm =>
+  | ["domain", field, qs, roots, ss, mgs, custom, ms] =>
+    match parseHex qs, parseHex ss, parseHex mgs, parseHex ms with
+    | some q, some s, some mg, some mm =>
+      -- `s` is the field's two-adicity (v2(q-1) = the extracted maxOrderRoot), not what the package's Generator accepts
+      if adicityOf field q != some s then "bad-op" else
       let x := nextPow2 mm
       let lx := x.log2
       if lx > s then "panic" else
-      let gen := powMod root (2^(s - lx)) q
+      match (if roots == "-" then none else parseHex roots) with
+      | none => "missing-root"   -- the package has no generator of order 2^s: no expected value, every answer differs
+      | some root =>
+      if !exactOrder q root s then "bad-root" else
+      match generatorOf q root s mm with
+      | none => "panic"
+      | some gen =>
       let ord := powMod gen x q == 1 % q && (lx == 0 || powMod gen (x/2) q == q - 1)
       let _ := custom
       " ".intercalate [toHex x, toHex gen, toHex (invMod gen q), toHex (invMod (x % q) q), toHex (mg % q),
         toHex (invMod mg q), boolStr ord]
-    | _, _, _, _, _ => "bad-op"
+    | _, _, _, _ => "bad-op"
+  | ["gen", field, qs, roots, ms] =>
+    match parseHex qs, parseHex ms with
+    | some q, some mm =>
+      if mm ≥ 2^64 then "bad-op" else
+      match adicityOf field q with
+      | none => "bad-op"
+      | some s =>
+        if roots == "-" then "missing-root" else
+        match parseHex roots with
+        | none => "bad-op"
+        | some root =>
+          if !exactOrder q root s then "bad-root" else
+          -- ecc.NextPowerOfTwo panics (documented) when the next power of two is not a uint64
+          if nextPow2 mm ≥ 2^64 then "panic" else
+          match generatorOf q root s mm with
+          | none => "err"
+          | some gen => toHex gen ++ " " ++ boolStr (exactOrder q gen (nextPow2 mm).log2)
+    | _, _ => "bad-op"
+  | ["stream", field, qs, nbs, rdr, specs, tls] =>
+    match parseHex qs, parseHex nbs, parseHex tls, constsOf field with
+    | some q, some nb, some tl, some c =>
+      if c.q != q || c.bytes != nb || tl > 2^16
+          || !(["bytes", "buffer", "bufio", "plain", "one", "chunk", "pipe", "file"].contains rdr) then "bad-op" else
+      let recs : List (Option DomainRec) := (specs.splitOn ",").map (fun sp =>
+        match sp.splitOn ":" with
+        | [ls, ws, ps, gs, cs] =>
+          match parseHex ls, parseHex ws, parseHex gs with
+          | some l, some w, some g =>
+            if l > 12 || (ps != "0" && ps != "1") || (cs != "0" && cs != "1") || g == 0 || g ≥ q || w == 0 || w ≥ q then none
+            else some ⟨2^l, invMod (2^l % q) q, w, invMod w q, g, invMod g q, ps == "1"⟩
+          | _, _, _ => none
+        | _ => none)
+      if recs.isEmpty || recs.length > 8 || recs.any (·.isNone) then "bad-op" else
+      let ds := recs.filterMap id
+      let trailer : List UInt8 := (List.range tl).map (fun i => UInt8.ofNat ((i * 37 + 11) % 256))
+      -- the answer does not depend on the reader kind: call i consumes exactly the i-th encoding, the trailer is left
+      match decodeStream nb q ds.length (encodeStream nb ds ++ trailer) with
+      | .error .eof => "err:eof"
+      | .error .range => "err:range"
+      | .ok (rs, rest) =>
+        let step := fun (acc : Nat × List String) (r : DomainRec × Nat) =>
+          let pos := acc.1 + r.2
+          (pos, acc.2 ++ [":".intercalate [toHex r.2, toHex pos, toHex r.1.card, toHex r.1.cardInv, toHex r.1.gen, toHex r.1.genInv,
+            toHex r.1.g, toHex r.1.gInv, boolStr r.1.precomp]])
+        " ".intercalate ((rs.foldl step (0, [])).2 ++ [toHex rest.length, boolStr (rest == trailer)])
+    | _, _, _, _ => "bad-op"
   | ["write", _field, qs, ws, ms, ps, gs, _custom, nbs] =>
     match parseHex qs, parseHex ws, parseHex ms, parseHex gs, parseHex nbs with
     | some q, some w, some m, some g, some nb =>
